@@ -23,6 +23,8 @@ ATTR_SETS = [
     [('a', '"b"'), ('c', None), ('d', 'e')],
     [('[ng]', '"x"')],
     [('*if', '"y"')],
+    [('a', '"it\'s > 1"'), ('d', 'e')],
+    [('a', '\'say "x>"\''), ('c', None)],
 ]
 # extended menu for the action helpers (C17): class token lists, empty values, expressions
 ATTR_SETS_ACTIONS = [
